@@ -77,15 +77,11 @@ fn concurrent(k: usize, symbolic: bool) -> Conc {
     Conc { a, b, va, vb, ida, idb }
 }
 
-/// params: [k versions, symbolic identifiers of new elements (0/1)]. C06-S2
-pub fn merged_arrays() {
-    let k = sym::param(0) as usize;
-    let c = concurrent(k, sym::param(1) != 0);
-    let d = c.a.m.read(None).expect("read a");
-    sym::observe_str(&serde_json::to_string(&d).unwrap());
-    assert!(c.b.m.read(None).expect("read b") == d, "replicas read different documents after exchange");
-    let items = ids_of(&d, "items♭");
-    let more = ids_of(&d, "more♭");
+/// the merged document: every surviving element exactly once over both arrays, deleted ones never, and the
+/// relative order of each version kept where the versions do not disagree
+fn check_merged(c: &Conc, d: &Map<String, Value>) {
+    let items = ids_of(d, "items♭");
+    let more = ids_of(d, "more♭");
     let mut universe = vec!["a".to_string(), "b".to_string(), "c".to_string(), c.ida.clone()];
     if c.idb != c.ida {
         universe.push(c.idb.clone());
@@ -102,7 +98,6 @@ pub fn merged_arrays() {
             assert!(count == 0, "an element whose object was deleted (or never existed) appears");
         }
     }
-    // where the two versions agree about the relative order of common elements, that order is kept
     for key in ["items♭", "more♭"] {
         let merged = if key == "items♭" { &items } else { &more };
         let (oa, ob) = if key == "items♭" { (subst(VERS[c.va].0, &c.ida), subst(VERS[c.vb].0, &c.idb)) } else { (subst(VERS[c.va].1, &c.ida), subst(VERS[c.vb].1, &c.idb)) };
@@ -128,6 +123,28 @@ pub fn merged_arrays() {
             }
         }
     }
+}
+
+/// params: [k versions, symbolic identifiers of new elements (0/1)]. C06-S2
+pub fn merged_arrays() {
+    let k = sym::param(0) as usize;
+    let mut c = concurrent(k, sym::param(1) != 0);
+    let d = c.a.m.read(None).expect("read a");
+    sym::observe_str(&serde_json::to_string(&d).unwrap());
+    assert!(c.b.m.read(None).expect("read b") == d, "replicas read different documents after exchange");
+    check_merged(&c, &d);
+    // the merge survives a commit on one replica (which resolves the arrays) and its propagation
+    let mut d1 = d.clone();
+    d1.insert("x".to_string(), Value::from(1));
+    c.a.m.update(d1).expect("update merged");
+    c.a.m.commit(None).expect("commit merged");
+    let pulled = {
+        let (a, b) = (&c.a, &mut c.b);
+        b.pull(a);
+        b.m.read(None).expect("read b after propagation")
+    };
+    check_merged(&c, &pulled);
+    assert!(c.a.reopen().read(None).expect("read reopened") == pulled, "reopened replica and receiving replica read different documents");
     sym::reach(1);
 }
 
@@ -171,6 +188,8 @@ pub fn maintenance() {
             a.m.commit(None).expect("commit");
             assert!(a.m.read(None).unwrap() == r1, "commit (with automatic array resolution) changed the document");
             assert!(a.reopen().read(None).unwrap() == r1, "reopened replica reads a different document after commit");
+            a.m.reload().expect("reload");
+            assert!(a.m.read(None).unwrap() == r1, "reload after commit (nothing new in storage) changed the document");
         }
         _ => {
             // commit with nothing staged
@@ -178,5 +197,37 @@ pub fn maintenance() {
             assert!(a.m.read(None).unwrap() == d0, "idle commit changed the document");
         }
     }
+    sym::reach(1);
+}
+
+/// C04 while a flattened array is in conflict: every object of the submitted document appears exactly once with
+/// the submitted content and nothing else appears. params: [k versions]
+pub fn update_in_conflict() {
+    let k = sym::param(0) as usize;
+    let c = concurrent(k, false);
+    let a = c.a;
+    let vc = sym::choose(k);
+    let d = version(vc, "d");
+    a.m.update(d.clone()).expect("update while arrays are in conflict");
+    let r = a.m.read(None).expect("read");
+    let mut seen: Vec<String> = ids_of(&r, "items♭");
+    seen.extend(ids_of(&r, "more♭"));
+    let mut submitted: Vec<String> = ids_of(&d, "items♭");
+    submitted.extend(ids_of(&d, "more♭"));
+    for x in &submitted {
+        assert!(seen.iter().filter(|y| *y == x).count() == 1, "a submitted object does not appear exactly once");
+    }
+    for x in &seen {
+        assert!(submitted.contains(x), "an object that was not submitted appears");
+    }
+    // and after the commit (which resolves the arrays) the document is exactly the submitted one
+    a.m.commit(None).expect("commit");
+    let r2 = a.m.read(None).expect("read after commit");
+    let mut seen2: Vec<String> = ids_of(&r2, "items♭");
+    seen2.extend(ids_of(&r2, "more♭"));
+    for x in &submitted {
+        assert!(seen2.iter().filter(|y| *y == x).count() == 1, "a submitted object does not appear exactly once after commit");
+    }
+    assert!(seen2.len() == submitted.len(), "objects that were not submitted appear after commit");
     sym::reach(1);
 }
